@@ -119,7 +119,7 @@ def one(rec, hub, seed, tier, i, tmpdir):
     ex = importlib.import_module("flodym.export")
     helper = importlib.import_module("flodym.export.helper")
     rng = case_nprng(seed, "c19.system", 0, i)
-    d = SY.gen_def(rng, hostile_names=True, max_flows=8)
+    d = SY.gen_def(rng, hostile_names=True, max_flows=8, vary_items=True)
     for s_ in d.stocks:
         s_["name"] = s_["name"].replace("None", "nowhere")
     # names must stay distinct after sanitising (the statement's domain)
@@ -144,6 +144,13 @@ def one(rec, hub, seed, tier, i, tmpdir):
         order = [d.processes[j] for j in rng.permutation(len(d.processes))]
         mfa = fd.MFASystem(dims=mfa.dims, parameters=mfa.parameters, processes={n: mfa.processes[n] for n in order}, flows=mfa.flows, stocks=mfa.stocks)
         d.processes_listed = order
+    if i % 5 == 4 and d.stocks:
+        # assembled by hand: the stocks are registered under other labels than their .name (the dictionary key is the system's name for them)
+        rekeyed = {f"key of {n}": st for n, st in mfa.stocks.items()}
+        mfa = fd.MFASystem(dims=mfa.dims, parameters=mfa.parameters, processes=mfa.processes, flows=mfa.flows, stocks=rekeyed)
+        for s_ in d.stocks:
+            s_["name"] = f"key of {s_['name']}"
+        sn = [ref_file_name(s_["name"]) for s_ in d.stocks]
     fill(mfa, rng)
     before = snapshot(mfa)
     shape_sig = f"f={len(d.flows)}|s={len(d.stocks)}|nd={sorted(set(len(f['letters']) for f in d.flows))}"
